@@ -373,4 +373,9 @@ func init() {
 	for _, id := range []string{"C05", "C18", "C06", "C08", "C03", "C04"} {
 		props[id].Assume = append(props[id].Assume, wsAssume...)
 	}
+
+	ext("C06", "gRPC per-message compression through serveGRPC with a marking compressor: compressed flag x negotiated encoding, payloads of 0..2 bytes",
+		HarnessSpec{Name: "VerifH_serveGRPC_compressed", Covers: []string{"compressed-reply", "compressed-request", "plain", "flag-without-encoding"}})
+	ext("C08", "gRPC per-message compression through the driver",
+		HarnessSpec{Name: "VerifH_serveGRPC_compressed", Covers: []string{"compressed-request"}})
 }
